@@ -181,3 +181,11 @@ def _nshow(x) -> str:
 
 def nshow(x) -> str:
     return _nshow(x)
+
+
+def mro_methods(prog: Program, cname: str) -> List[FuncInfo]:
+    """every method defined in any class of the MRO, shadowed ones included (they stay reachable through super())"""
+    out = []
+    for k in prog.cls(cname).mro():
+        out += list(k.methods.values()) + list(k.getters.values()) + list(k.setters.values())
+    return out
